@@ -96,6 +96,8 @@ def gen_definition(rng, tag):
     d.tag = tag
     pars = []          # [name, units, default, [lo, hi], type, desc]
     nvol = rng.choice([0, 1, 1, 2, 2, 3])
+    if tag == 2:
+        nvol = max(nvol, 2)      # the third takes the un-normalised two-parameter mesh with a cutoff
     if tag in (0, 1):
         nvol = max(nvol, 1)      # the first definition of every run is hollow and gets the mesh beyond one kernel invocation;
         #                          the second has a validity region that cuts through a dispersed mesh
@@ -500,6 +502,9 @@ def main(run):
             if t == 0 and m == 1:
                 kind = "pd"          # corpus: hollow definition x more than 100 mesh points, every run
             pdn = [p.name for p in kp if p.polydisperse]
+            corpus_unnorm = t == 2 and m == 3 and len(pdn) >= 2
+            if corpus_unnorm:
+                kind = "pd2"         # corpus: un-normalised weights x two dispersed parameters x a cutoff, every run
             corpus_valid = t == 1 and m == 0 and d.valid is not None and d.valid[0] in pdn
             if corpus_valid:
                 kind = "pd"          # corpus: invalid mesh points FOLLOWED by valid ones in loop order, every run
@@ -525,6 +530,8 @@ def main(run):
                 if drng.random() < 0.5:
                     pars[d.valid[0] + "_pd"] = 0.1; pars[d.valid[0] + "_pd_n"] = 3
             cutoff = drng.choice([0.0, 1e-5, 1e-3, 0.05])
+            if corpus_unnorm:
+                cutoff = 1e-3
             mode = drng.randint(0, len(d.modes)) if d.modes else 0
             scale, bg = drng.uniform(0.3, 2), drng.choice([0.0, drng.uniform(0.01, 0.2)])
             full = dict(pars, scale=scale, background=bg)
@@ -535,11 +542,11 @@ def main(run):
             # the longest distribution scaled up, the others down, so that outer partial products fall below the
             # cutoff while the full product does not
             mesh = get_mesh(info, dict(full), dim="2d" if two_d else "1d")
-            unnorm = kind in ("pd", "pd2") and drng.random() < 0.4 and max(len(mm[2]) for mm in mesh) > 1
+            unnorm = kind in ("pd", "pd2") and (drng.random() < 0.4 or corpus_unnorm) and max(len(mm[2]) for mm in mesh) > 1
             if unnorm:
                 lens_ = [len(mm[2]) for mm in mesh]
                 longest = int(np.argmax(lens_))
-                fac = drng.choice([30.0, 1e3, 1e5])
+                fac = drng.choice([30.0, 1e3, 1e5]) if not corpus_unnorm else 1e3
                 nact = sum(1 for n_ in lens_ if n_ > 1)
                 mesh = [(v, vals, np.asarray(w, "d") * (fac if k == longest else (fac ** (-1.0 / max(1, nact - 1)) if len(w) > 1 else 1.0)))
                         for k, (v, vals, w) in enumerate(mesh)]
